@@ -1,6 +1,6 @@
 """C11 - substring and editing methods keep the style of every surviving character."""
 from .. import obs as O
-from .common import Contract, ansi_values, history, run_cases, tier_sizes, is_ansi, safe_obs
+from .common import Contract, ansi_values, history, run_cases, tier_sizes, is_ansi, safe_obs, esc_seam_values
 from .c10 import STRIP_DEFAULT
 from ..gen import gen_text
 
@@ -410,6 +410,9 @@ def drive(ctx, mon, tier, only_case=None):
         history(L, rng, ex, rng.randint(2, sz['nops']), sz['maxlen'], 'mixed' if rng.random() < 0.25 else 'wf', WEIGHTS,
                 esc=rng.random() < 0.12)
         vals = ansi_values(L, ex)
+        if rng.random() < 0.2:
+            with mon.quiet():
+                vals = vals + esc_seam_values(L, rng, 2)
         for v in vals[-4:]:
             if len(v.base_str) <= 80:
                 direct_calls(ctx, mon, rng, L, v, ex.pool)
